@@ -220,6 +220,8 @@ async fn run_case(case: &Case, info: &mut CaseInfo, root: std::path::PathBuf) ->
     let mut offered: Vec<usize> = vec![];
     let mut offered_kinds: std::collections::BTreeMap<(usize, u64), (bool, bool)> = Default::default();
     let mut offered_last_seqs: std::collections::BTreeMap<(usize, u64), std::collections::BTreeSet<u64>> = Default::default();
+    let mut offered_seq_presence: std::collections::BTreeMap<(usize, u64), std::collections::BTreeMap<u64, bool>> = Default::default();
+    let mut views_differ = false;
     let mut actors_during_hold = std::collections::BTreeSet::new();
     for (i, id) in ids.iter().enumerate() {
         if i == hold_from {
@@ -251,6 +253,18 @@ async fn run_case(case: &Case, info: &mut CaseInfo, root: std::path::PathBuf) ->
                     }
                     // likewise two views of one version that end at different sequences (the later view lost rows)
                     offered_last_seqs.entry((origin, version.0)).or_default().insert(last_seq.0);
+                    // ... or that disagree about a sequence both cover (live in the earlier view, overwritten in the
+                    // later one): the node keeps the rows of whichever copy its concurrent jobs commit first
+                    if let Changeset::Full { seqs, .. } = &change.changeset {
+                        let present: std::collections::BTreeSet<u64> = changes.iter().map(|c| c.seq.0).collect();
+                        let known = offered_seq_presence.entry((origin, version.0)).or_default();
+                        for s in seqs.start().0..=seqs.end().0.min(seqs.start().0 + 100_000) {
+                            let p = present.contains(&s);
+                            if *known.entry(s).or_insert(p) != p {
+                                views_differ = true;
+                            }
+                        }
+                    }
                 }
                 _ => {}
             }
@@ -343,7 +357,7 @@ async fn run_case(case: &Case, info: &mut CaseInfo, root: std::path::PathBuf) ->
         eprintln!("state: {:?}", w.nodes[r].sync_state().await);
     }
     w.check_advertised(r).await?;
-    if offered_kinds.values().any(|(empty, full)| *empty && *full) || offered_last_seqs.values().any(|s| s.len() > 1) {
+    if views_differ || offered_kinds.values().any(|(empty, full)| *empty && *full) || offered_last_seqs.values().any(|s| s.len() > 1) {
         info.class("version-offered-as-empty-and-with-changes(visible state not compared)");
     } else {
         w.check_visibility(r, "after overload and re-offers").await?;
